@@ -469,7 +469,7 @@ func (cpu *CPU) nWrite16_cross(bank byte, addr uint16, value uint16) {
 	ll := byte(value)
 	hh := byte(value >> 8)
 	cpu.Bus.EaWrite(ea, ll)
-	cpu.Bus.EaWrite(ea+1, hh)
+	cpu.Bus.EaWrite((ea+1)&0x00ffffff, hh) // wrap on 24bits
 }
 
 func (cpu *CPU) nRead(bank byte, addr uint16) byte {
@@ -560,7 +560,7 @@ func (cpu *CPU) cmdRead16() uint16 {
 		m_Absolute_X_Indirect,
 		m_Stack_Relative_Indirect_Y:
 		ll := cpu.Bus.EaRead(cpu.StepInfo.EA) // todo - zastapic to jakos?
-		hh := cpu.Bus.EaRead(cpu.StepInfo.EA + 1)
+		hh := cpu.Bus.EaRead((cpu.StepInfo.EA + 1) & 0x00ffffff) // wrap on 24bits
 		return uint16(hh)<<8 | uint16(ll)
 
 	case m_Absolute,
@@ -621,7 +621,7 @@ func (cpu *CPU) cmdWrite16(value uint16) {
 		ll := byte(value)
 		hh := byte(value >> 8)
 		cpu.Bus.EaWrite(cpu.StepInfo.EA, ll)
-		cpu.Bus.EaWrite(cpu.StepInfo.EA+1, hh)
+		cpu.Bus.EaWrite((cpu.StepInfo.EA+1)&0x00ffffff, hh) // wrap on 24bits
 
 	case m_Absolute,
 		m_DP_X_Indirect,
@@ -864,10 +864,10 @@ func (cpu *CPU) Step() (int, bool) {
 	case m_Absolute_X:
 		arg16 = cpu.nRead16_wrap(cpu.RK, cpu.PC+1)
 		if cpu.X == 1 {
-			ea = (uint32(cpu.RDBR)<<16 | uint32(arg16)) + uint32(cpu.RXl)
+			ea = ((uint32(cpu.RDBR)<<16 | uint32(arg16)) + uint32(cpu.RXl)) & 0x00ffffff // wrap on 24bits
 			pageCrossed = pagesDiffer(arg16, arg16+uint16(cpu.RXl))
 		} else {
-			ea = (uint32(cpu.RDBR)<<16 | uint32(arg16)) + uint32(cpu.RX)
+			ea = ((uint32(cpu.RDBR)<<16 | uint32(arg16)) + uint32(cpu.RX)) & 0x00ffffff // wrap on 24bits
 			pageCrossed = pagesDiffer(arg16, arg16+cpu.RX)
 		}
 		//fmt.Fprintf(&cpu.LogBuf, "m_Absolute_X: arg16 %04x EA $%06x\n", arg16, EA)
@@ -876,10 +876,10 @@ func (cpu *CPU) Step() (int, bool) {
 	case m_Absolute_Y:
 		arg16 = cpu.nRead16_wrap(cpu.RK, cpu.PC+1)
 		if cpu.X == 1 {
-			ea = (uint32(cpu.RDBR)<<16 | uint32(arg16)) + uint32(cpu.RYl)
+			ea = ((uint32(cpu.RDBR)<<16 | uint32(arg16)) + uint32(cpu.RYl)) & 0x00ffffff // wrap on 24bits
 			pageCrossed = pagesDiffer(arg16, arg16+uint16(cpu.RYl))
 		} else {
-			ea = (uint32(cpu.RDBR)<<16 | uint32(arg16)) + uint32(cpu.RY)
+			ea = ((uint32(cpu.RDBR)<<16 | uint32(arg16)) + uint32(cpu.RY)) & 0x00ffffff // wrap on 24bits
 			pageCrossed = pagesDiffer(arg16, arg16+cpu.RY)
 		}
 		//fmt.Fprintf(&cpu.LogBuf, "m_Absolute_Y: arg16 %04x EA $%06x\n", arg16, EA)
@@ -968,9 +968,9 @@ func (cpu *CPU) Step() (int, bool) {
 		arg8 = cpu.nRead(cpu.RK, cpu.PC+1)
 		ea = cpu.nRead24_wrap(0x00, uint16(arg8)+cpu.RD)
 		if cpu.X == 1 {
-			ea = ea + uint32(cpu.RYl)
+			ea = (ea + uint32(cpu.RYl)) & 0x00ffffff // wrap on 24bits
 		} else {
-			ea = ea + uint32(cpu.RY)
+			ea = (ea + uint32(cpu.RY)) & 0x00ffffff // wrap on 24bits
 		}
 
 	// ($1234, X)     - p. 291 or 5.5
@@ -1005,9 +1005,9 @@ func (cpu *CPU) Step() (int, bool) {
 	case m_Absolute_Long_X:
 		ea = cpu.nRead24_wrap(cpu.RK, cpu.PC+1)
 		if cpu.X == 1 {
-			ea = ea + uint32(cpu.RXl)
+			ea = (ea + uint32(cpu.RXl)) & 0x00ffffff // wrap on 24bits
 		} else {
-			ea = ea + uint32(cpu.RX)
+			ea = (ea + uint32(cpu.RX)) & 0x00ffffff // wrap on 24bits
 		}
 		//fmt.Fprintf(&cpu.LogBuf, "m_Absolute_Long: EA $%06x\n", EA)
 
@@ -1041,9 +1041,9 @@ func (cpu *CPU) Step() (int, bool) {
 		arg16 = cpu.nRead16_wrap(0x00, uint16(arg8)+cpu.SP)
 		//fmt.Fprintf(&cpu.LogBuf, "m_Stack_Relative_Indirect_Y: arg16 $%04x ", arg16)
 		if cpu.X == 1 {
-			ea = (uint32(cpu.RDBR)<<16 | uint32(arg16)) + uint32(cpu.RYl)
+			ea = ((uint32(cpu.RDBR)<<16 | uint32(arg16)) + uint32(cpu.RYl)) & 0x00ffffff // wrap on 24bits
 		} else {
-			ea = (uint32(cpu.RDBR)<<16 | uint32(arg16)) + uint32(cpu.RY)
+			ea = ((uint32(cpu.RDBR)<<16 | uint32(arg16)) + uint32(cpu.RY)) & 0x00ffffff // wrap on 24bits
 		}
 		//fmt.Fprintf(&cpu.LogBuf, "EA $%06x ", EA)
 
